@@ -57,6 +57,7 @@ func (c *concretizer) baseScript() string {
 	o := c.o
 	var b strings.Builder
 	b.WriteString(o.Decls.scriptDecls(nil))
+	b.WriteString(idxDecl)
 	o.Decls.mu.Lock()
 	for _, d := range o.Decls.defs {
 		b.WriteString(d + "\n")
@@ -238,7 +239,7 @@ func (c *concretizer) conc(ex *Exec, st *State, v Val, t types.Type, q types.Qua
 		if isByteElem(x.Elem) {
 			terms := make([]T, ln)
 			for i := range terms {
-				terms[i] = tSel(mem[0], tAdd(x.Off, num(int64(i))))
+				terms[i] = tSel(mem[0], tIdx(x.Off, num(int64(i))))
 			}
 			var bs []byte
 			if ln > 0 {
@@ -271,7 +272,7 @@ func (c *concretizer) conc(ex *Exec, st *State, v Val, t types.Type, q types.Qua
 		for i := int64(0); i < ln; i++ {
 			comps := make([]T, len(mem))
 			for ci := range mem {
-				comps[ci] = tSel(mem[ci], tAdd(x.Off, num(i)))
+				comps[ci] = tSel(mem[ci], tIdx(x.Off, num(i)))
 			}
 			ev, _ := ex.unflatten(st, comps, x.Elem, true)
 			g, err := c.conc(ex, st, ev, x.Elem, q, depth+1)
